@@ -29,6 +29,7 @@ type V struct {
 	S     string   // s
 	Elems []*V     // L: elements; M: k1 v1 k2 v2 … in insertion order; S: fields
 	T     int      // S: struct type 1..4; P: kind
+	Sl    bool     // L: the real value is built as a slice of a longer list (token l<n>)
 	ID    int      // P: id
 }
 
@@ -223,6 +224,7 @@ func Float(f float64) *V       { return &V{K: 'F', Bits: math.Float64bits(f)} }
 func FloatBits(b uint64) *V    { return &V{K: 'F', Bits: b} }
 func Str(s string) *V          { return &V{K: 's', S: s} }
 func List(e ...*V) *V          { return &V{K: 'L', Elems: e} }
+func Slice(e ...*V) *V         { return &V{K: 'L', Sl: true, Elems: e} }
 func Map(kv ...*V) *V          { return &V{K: 'M', Elems: kv} }
 func Struct(t int, f ...*V) *V { return &V{K: 'S', T: t, Elems: f} }
 func Ref(kind, id int) *V      { return &V{K: 'P', T: kind, ID: id} }
@@ -250,7 +252,11 @@ func (v *V) enc(sb *[]string) {
 	case 's':
 		*sb = append(*sb, "s"+common.Hex(v.S))
 	case 'L':
-		*sb = append(*sb, "L"+strconv.Itoa(len(v.Elems)))
+		if v.Sl {
+			*sb = append(*sb, "l"+strconv.Itoa(len(v.Elems)))
+		} else {
+			*sb = append(*sb, "L"+strconv.Itoa(len(v.Elems)))
+		}
 		for _, e := range v.Elems {
 			e.enc(sb)
 		}
@@ -326,6 +332,8 @@ func parseToks(t []string) (*V, []string) {
 		return &V{K: 's', S: common.Unhex(tok[1:])}, rest
 	case 'L':
 		return &V{K: 'L', Elems: many(atoi(tok[1:]))}, rest
+	case 'l':
+		return &V{K: 'L', Sl: true, Elems: many(atoi(tok[1:]))}, rest
 	case 'M':
 		return &V{K: 'M', Elems: many(2 * atoi(tok[1:]))}, rest
 	case 'S':
@@ -369,8 +377,16 @@ func (v *V) Go() any {
 		return v.S
 	case 'L':
 		l := vals.EmptyList
+		if v.Sl {
+			// the same elements, as a slice of a list with one more element
+			// on each side: another Go type behind the same elvish value
+			l = l.Conj("pad")
+		}
 		for _, e := range v.Elems {
 			l = l.Conj(e.Go())
+		}
+		if v.Sl {
+			return l.Conj("pad").SubVector(1, 1+len(v.Elems))
 		}
 		return l
 	case 'M':
